@@ -9,6 +9,7 @@ mod c09;
 mod c10;
 mod c13;
 mod c17;
+mod c19;
 mod gen;
 
 fn main() {
@@ -26,6 +27,7 @@ fn main() {
         "c10" => c10::main(args),
         "c13" => c13::main(args),
         "c17" => c17::main(args),
+        "c19" => c19::main(args),
         "gensizes" => {
             print_gen_sizes();
             0
